@@ -336,7 +336,16 @@ def check(prog, run):
         rets = [n for n in own_nodes(en.node) if isinstance(n, ast.Return)]
         for rt in rets:
             r.instance("enter returns `%s`" % norm_stmt(rt))
-            if not (isinstance(rt.value, ast.Name) and rt.value.id == thread):
+            ok = isinstance(rt.value, ast.Name) and rt.value.id == thread
+            if not ok and (rt.value is None or (isinstance(rt.value, ast.Constant) and rt.value.value is None)):
+                # `return None` where the threaded value is known to be None (inside `if <thread> is None:`) is the same value
+                cur = getattr(rt, "_parent", None)
+                child = rt
+                while cur is not None and cur is not en.node:
+                    if isinstance(cur, ast.If) and any(child is b for b in cur.body) and " ".join(ast.unparse(cur.test).split()) == "%s is None" % thread:
+                        ok = True
+                    child, cur = cur, getattr(cur, "_parent", None)
+            if not ok:
                 run.report(r, "%s:ChainedVisitor.enter:returns-original" % VIS, en.where(rt),
                            "enter returns %s instead of the threaded value %s: a deletion or replacement made by a chained "
                            "visitor is lost" % (ast.unparse(rt.value) if rt.value else None, thread))
